@@ -804,3 +804,85 @@ Proof.
   destruct w; [congruence|]. rewrite Ha in Hv. cbn in Hv. inversion Hv; subst.
   repeat split; discriminate.
 Qed.
+
+(** ** Aborted auditions *)
+
+(** Also when an evaluation error aborted the audit loop: the deferred final
+    round still closes every period — unless that final round itself hits an
+    evaluation error (the loop then stops visiting auditors, in the code as in
+    the model). *)
+Definition final_round_aborted (c : acfg) : Prop :=
+  exists sb ts s1 o1, step_event c sb (EFinal ts) = (s1, o1, Aborted).
+
+Lemma run_events_closed_or_final_aborted c ma :
+  NoDup (map m_name (c_members c)) -> In ma (c_members c) ->
+  forall es s st0 os s' stt ms p,
+  run_events c s st0 es = (os, s', stt) -> stt <> Panicked ->
+  get_ms (m_name ma) (s_ms s) = Some ms -> rel (tbl_of ma) ms p -> s_mood_start s <> None ->
+  ends_final es = true ->
+  exists p', trace_run (m_name ma) (tbl_of ma) p (List.concat os) = Some p' /\
+             (p' = PClosed \/ final_round_aborted c).
+Proof.
+  intros Hnd Hin. induction es as [|e es IH]; intros s st0 os s' stt ms p Hr Hnp Hg Hrel Hms Hef;
+    [discriminate|]. cbn [run_events] in Hr.
+  destruct st0.
+  - destruct (step_event c s e) as [[s1 o1] st1] eqn:E1.
+    destruct (run_events c s1 st1 es) as [[os2 s2] st2] eqn:E2.
+    inversion Hr; subst; clear Hr.
+    assert (Hst1 : st1 <> Panicked).
+    { intros ->. destruct es; cbn in E2; inversion E2; subst; congruence. }
+    destruct (step_event_trace _ _ _ _ _ _ _ _ _ Hnd Hin E1 Hst1 Hg Hrel Hms)
+      as ((p1 & ms1 & Ht1 & Hg1 & Hr1 & Hf1) & Hms1).
+    destruct es as [|e2 es2].
+    + cbn [ends_final] in Hef.
+      destruct st1; [| |congruence]; cbn in E2; inversion E2; subst; cbn [List.concat]; rewrite app_nil_r;
+        exists p1; (split; [exact Ht1|]).
+      * left. apply Hf1; [exact Hef|reflexivity].
+      * right. destruct e; try discriminate. eexists _, _, _, _. exact E1.
+    + destruct (IH _ _ _ _ _ _ _ E2 Hnp Hg1 Hr1 Hms1 Hef) as (p2 & Ht2 & Hc).
+      exists p2. cbn [List.concat]. rewrite trace_run_app, Ht1. split; [exact Ht2 | exact Hc].
+  - destruct e as [ts mo|ts vs|ts].
+    + destruct (run_events c s Aborted es) as [[os2 s2] st2] eqn:E2. inversion Hr; subst; clear Hr.
+      destruct es as [|e2 es2]; [discriminate|].
+      destruct (IH _ _ _ _ _ _ _ E2 Hnp Hg Hrel Hms Hef) as (p2 & Ht2 & Hc).
+      exists p2. cbn [List.concat app]. split; assumption.
+    + destruct (run_events c s Aborted es) as [[os2 s2] st2] eqn:E2. inversion Hr; subst; clear Hr.
+      destruct es as [|e2 es2]; [discriminate|].
+      destruct (IH _ _ _ _ _ _ _ E2 Hnp Hg Hrel Hms Hef) as (p2 & Ht2 & Hc).
+      exists p2. cbn [List.concat app]. split; assumption.
+    + destruct (step_event c s (EFinal ts)) as [[s1 o1] st1] eqn:E1.
+      destruct (run_events c s1 (match st1 with Running => Aborted | x => x end) es) as [[os2 s2] st2] eqn:E2.
+      inversion Hr; subst; clear Hr.
+      assert (Hst1 : st1 <> Panicked).
+      { intros ->. destruct es; cbn in E2; inversion E2; subst; congruence. }
+      destruct (step_event_trace _ _ _ _ _ _ _ _ _ Hnd Hin E1 Hst1 Hg Hrel Hms)
+        as ((p1 & ms1 & Ht1 & Hg1 & Hr1 & Hf1) & Hms1).
+      destruct es as [|e2 es2].
+      * destruct st1; [| |congruence]; cbn in E2; inversion E2; subst; cbn [List.concat]; rewrite app_nil_r;
+          exists p1; (split; [exact Ht1|]).
+        -- left. apply Hf1; reflexivity.
+        -- right. eexists _, _, _, _. exact E1.
+      * destruct (IH _ _ _ _ _ _ _ E2 Hnp Hg1 Hr1 Hms1 Hef) as (p2 & Ht2 & Hc).
+        exists p2. cbn [List.concat]. rewrite trace_run_app, Ht1. split; [exact Ht2 | exact Hc].
+  - destruct es; inversion Hr; subst; congruence.
+Qed.
+
+(** The audition got past its initial round (an error there ends it before the
+    final round is even registered). *)
+Theorem audition_periods_closed_even_when_aborted c es ma os s stt :
+  NoDup (map m_name (c_members c)) -> In ma (c_members c) ->
+  ends_final es = true ->
+  (exists s1 o0, mood_change c (init_st c) false 0 "clear" = (s1, o0, Running)) ->
+  run_audition c es = (os, s, stt) -> stt <> Panicked ->
+  all_periods_closed (m_name ma) (tbl_of ma) os \/ final_round_aborted c.
+Proof.
+  intros Hnd Hin Hef (s1 & o0 & E0) Hr Hnp. unfold run_audition in Hr. rewrite E0 in Hr.
+  destruct (run_events c s1 Running es) as [[os2 s2] st2] eqn:E1. inversion Hr; subst; clear Hr.
+  destruct (get_ms_init (c_members c) ma Hin) as (ms0 & Hg0 & Ha0).
+  assert (Hrel0 : rel (tbl_of ma) ms0 PClosed) by exact Ha0.
+  destruct (mood_change_trace _ _ _ _ _ _ _ _ ma ms0 PClosed Hnd Hin E0 ltac:(discriminate) Hg0 Hrel0)
+    as ((p1 & ms1 & Ht1 & Hg1 & Hr1 & _) & Hms1 & _).
+  destruct (run_events_closed_or_final_aborted c ma Hnd Hin _ _ _ _ _ _ _ _ E1 Hnp Hg1 Hr1 (Hms1 eq_refl eq_refl) Hef)
+    as (p2 & Ht2 & [Hc|Hc]); [left | right; exact Hc].
+  unfold all_periods_closed. cbn [List.concat]. rewrite trace_run_app, Ht1, Ht2. congruence.
+Qed.
